@@ -145,7 +145,7 @@ int ds_run(void (*main_fn)(void *), void *arg);
 int ds_deadlocked(void);    /* last run ended in deadlock */
 int ds_livelocked(void);    /* last run hit max_steps */
 int ds_diverged(void);      /* an explicit schedule entry named a thread that was not enabled */
-int ds_misuse_count(void);  /* unlock by non-owner, join of a detached/joined thread, wait without the mutex */
+int ds_misuse_count(void);  /* unlock by non-owner, join of self / of a detached or joined thread, wait without the mutex */
 int ds_thread_count(void);  /* threads created in the last run, including thread 0 */
 int ds_self_ordinal(void);  /* ordinal of the calling thread, -1 if not a scheduled thread */
 
